@@ -53,7 +53,11 @@ fn evicted_outlier(full: &[Op], n: usize) -> bool {
 }
 
 fn compare(cfg: &Cfg, full: &[Op], suffix: &[Op], a: &Out, b: &Out, out: &mut JobOut) -> bool {
-    let t = full.len();
+    compare_at(cfg, full, full.len(), suffix, a, b, out)
+}
+
+/// `t`: number of inputs the long-running instance has consumed (`full` may be only the tail of that history)
+fn compare_at(cfg: &Cfg, full: &[Op], t: usize, suffix: &[Op], a: &Out, b: &Out, out: &mut JobOut) -> bool {
     let m = full.iter().map(|o| o.maxmag()).fold(0.0, f64::max);
     let tl = tau(t);
     let mut why: Option<String> = None;
@@ -378,6 +382,76 @@ pub fn run(ctx: &Ctx) -> CheckResult {
             }
             out
         });
+        res.absorb(merge_jobs(outs));
+    }
+    // long horizon: one instance fed past 2^22 inputs (periodic maintenance code - "re-sum every 2^20 updates" -
+    // runs for the first time there) against a fresh instance fed the last window, around every power of two
+    if !res.out.failed() {
+        let h = super::refcmp::horizon_len(th);
+        let ws = super::refcmp::tick_walk(h, ctx.seed ^ 0x17, false, true, false);
+        let wb = super::refcmp::tick_walk(h, ctx.seed ^ 0x17, true, true, false);
+        let mut hz: Vec<Cfg> = vec![];
+        for k in [Kind::Sma, Kind::Wma, Kind::Sd, Kind::Mad, Kind::Min, Kind::Max, Kind::FastStoch, Kind::Cci, Kind::Roc, Kind::Er, Kind::Mfi] {
+            hz.push(Cfg::p1(k, 20));
+        }
+        hz.push(Cfg::pm(Kind::Bb, 9, 2.0));
+        let outs = par_run(ctx, &hz, |_, cfg| {
+            let mut out = JobOut::default();
+            let w = cfg.kind.window(cfg).unwrap();
+            let walk: &[Op] = if cfg.kind.has_scalar() { &ws[..] } else { &wb[..] };
+            let cps = super::refcmp::horizon_checkpoints(h, w);
+            let r = std::panic::catch_unwind(std::panic::AssertUnwindSafe(|| {
+                let mut s = make(cfg);
+                let mut got: Vec<(usize, Out)> = Vec::with_capacity(cps.len());
+                let mut ci = 0;
+                for (i, op) in walk.iter().enumerate() {
+                    let o = s.apply(op);
+                    if ci < cps.len() && cps[ci] == i + 1 {
+                        got.push((i + 1, o));
+                        ci += 1;
+                    }
+                }
+                got
+            }));
+            out.stats.traces += 1;
+            out.stats.transitions += h as u64;
+            let got = match r {
+                Ok(g) => g,
+                Err(_) => {
+                    out.fail(Violation::new(PROP, cfg, &walk[h - 64..], "panic").obs("panic".into()).exp("outputs".into()).det(format!("tick-grid walk of {} inputs", h)));
+                    return out;
+                }
+            };
+            for (step, o) in got {
+                if step < w {
+                    continue;
+                }
+                let suffix = &walk[step - w..step];
+                let b = match last_of(cfg, suffix) {
+                    Some(b) => b,
+                    None => {
+                        out.fail(Violation::new(PROP, cfg, suffix, "panic").obs("panic".into()).exp("outputs".into()));
+                        return out;
+                    }
+                };
+                out.stats.states += 1;
+                out.stats.transitions += w as u64;
+                // (the comparison needs the largest magnitude and the evicted values of the whole history: the
+                // last 4096 inputs stand in for it - the walk stays inside [1, 30.75] throughout)
+                let from = step.saturating_sub(4096);
+                let before = out.violations.len();
+                if !compare_at(cfg, &walk[from..step], step, suffix, &o, &b, &mut out) {
+                    if out.violations.len() > before {
+                        if let Some(v) = out.violations.last_mut() {
+                            v.detail.push_str(&format!(" [step {} of a tick-grid walk of {} inputs on one instance; ops shown = the last 4096]", step, h));
+                        }
+                    }
+                    return out;
+                }
+            }
+            out
+        });
+        res.extra.insert("long_horizon_steps".into(), json!(h));
         res.absorb(merge_jobs(outs));
     }
     // larger periods: spike-laden prefixes of several lengths x default suffixes of length w..w+2
